@@ -450,12 +450,12 @@ func (r *Runtime) arrayproto_splice(call FunctionCall) Value {
 		panic(r.NewTypeError("Invalid array length"))
 	}
 	a := arraySpeciesCreate(o, actualDeleteCount)
-	// The fast path is only taken if both the source and the destination are standard arrays, so that nothing
-	// in it can run any user code, and if the source still has the length all the indexes were calculated for
-	// (converting the arguments and creating the destination could have modified it).
+	// The fast path is only taken if the source is a standard array and the destination is a new standard array,
+	// so that nothing in it can run any user code, and if the source still has the length all the indexes were
+	// calculated for (converting the arguments and creating the destination could have modified it).
 	fast := false
 	if src := r.checkStdArrayObj(o); src != nil && a != o && int64(src.length) == length {
-		if dst := r.checkStdArrayObjWithProto(a); dst != nil {
+		if dst := r.checkNewStdArrayObj(a); dst != nil {
 			deleted := make([]Value, actualDeleteCount)
 			copy(deleted, src.values[actualStart:])
 			setArrayValues(dst, deleted)
@@ -1450,6 +1450,23 @@ func (r *Runtime) checkStdArrayObjWithProto(obj *Object) *arrayObject {
 			}
 		}
 	}
+	return nil
+}
+
+// checkNewStdArrayObj returns the underlying arrayObject if obj is an array that has no elements yet (it may
+// have a non-zero length, like the result of new Array(n)), is extensible and has a writable length. Defining
+// the elements of such an array one by one cannot fail or run any user code, so its values can be set directly.
+func (r *Runtime) checkNewStdArrayObj(obj *Object) *arrayObject {
+	if arr, ok := obj.self.(*arrayObject); ok &&
+		arr.propValueCount == 0 &&
+		arr.objCount == 0 &&
+		len(arr.values) == 0 &&
+		arr.extensible &&
+		arr.lengthProp.writable {
+
+		return arr
+	}
+
 	return nil
 }
 
